@@ -531,24 +531,31 @@ CONTAINER_MUTATORS = {"push", "push_back", "push_front", "pop", "pop_back", "pop
 
 
 def _container_root(e):
+    """identity of the container an expression denotes; components of a tuple / struct result (`.0` and `.1` of
+    `partition()`) are DIFFERENT containers, so the field path walked through is part of the identity"""
     e = peel(e)
     n = 0
+    proj = []
     while e is not None and n < 20:
         n += 1
         if e.k in ("local", "multi"):
-            return ("local", e.local)
+            return ("local", e.local) if not proj else ("local", e.local, tuple(proj))
         if e.k == "param":
-            return ("param", e.idx)
+            return ("param", e.idx) if not proj else ("param", e.idx, tuple(proj))
         if e.k == "field":
             # self field containers: identify by the field path
             from .mir import self_field_path
             fp = self_field_path(e)
             if fp:
-                return ("self", tuple(fp))
+                return ("self", tuple(fp)) if not proj else ("self", tuple(fp), tuple(proj))
+            proj.append(e.idx if e.idx is not None else e.name)
             e = peel(e.a)
         elif e.k == "call":
             if e.bb is not None and (e.q or "").split("::")[-1] in ("new", "with_capacity", "collect", "to_vec", "from_elem", "into_vec"):
-                return ("call", e.bb)
+                return ("call", e.bb) if not proj else ("call", e.bb, tuple(proj))
+            if proj and e.bb is not None:
+                # a component of this call's result (e.g. one half of partition()): the call site + component
+                return ("call", e.bb, tuple(proj))
             if e.args:
                 e = peel(e.args[0])
             else:
